@@ -1,4 +1,5 @@
 import Orx.KSRun
+import Orx.Props.C02Base
 import Orx.IW.Outs
 import Orx.GenThms.Slice
 import Orx.GenThms.Vec
@@ -8,82 +9,6 @@ import Orx.Props.C07
 /-! # C02 Index fidelity: a reported index is the element's source position -/
 namespace Orx.Props.C02
 open Orx Orx.KS
-
-/-- what an event may claim about the source -/
-def EvGood (s : KSrc) : Ev → Prop
-  | .ret (.item i v) => i < s.len ∧ v = s.valAt i
-  | .ret (.chunk b a _ vals) => b + a ≤ s.len ∧ vals.length ≤ a ∧ vals = (List.range vals.length).map fun k => s.valAt (b + k)
-  | .visit (some i) v => i < s.len ∧ v = s.valAt i
-  | _ => True
-
-theorem rangeList_map_valAt (s : KSrc) (b j : Nat) :
-    (rangeList b (b + j)).map s.valAt = (List.range j).map fun k => s.valAt (b + k) := by
-  simp [rangeList, Nat.add_comm]
-
-theorem visitAll_good (s : KSrc) (withIdx : Bool) (pa : Option Nat) (ps : List Nat) (v sm : Nat) (acc : List Ev)
-    (hps : ∀ p ∈ ps, p < s.len) (hacc : ∀ e ∈ acc, EvGood s e) :
-    ∀ e ∈ (visitAll s withIdx pa ps v sm acc).1, EvGood s e := by
-  induction ps generalizing v sm acc with
-  | nil => simpa [visitAll] using hacc
-  | cons p ps ih =>
-    have hp : p < s.len := hps p (by simp)
-    have hacc' : ∀ e ∈ acc ++ cloneEvs s [p] ++ [Ev.visit (if withIdx = true then some p else none) (s.valAt p)], EvGood s e := by
-      intro e he
-      simp only [List.mem_append, List.mem_singleton] at he
-      rcases he with (he | he) | he
-      · exact hacc e he
-      · unfold cloneEvs at he; split at he <;> simp at he; subst he; trivial
-      · subst he; cases withIdx <;> simp [EvGood, hp]
-    simp only [visitAll]
-    split
-    · exact hacc'
-    · exact ih _ _ _ (fun q hq => hps q (by simp [hq])) hacc'
-
-theorem pullRange_le (len c n : Nat) : (pullRange len c n).2 ≤ len ∧ (pullRange len c n).1 ≤ (pullRange len c n).2 := by
-  simp only [pullRange]; split <;> omega
-
-theorem mem_rangeList {b e p : Nat} (h : p ∈ rangeList b e) : b ≤ p ∧ p < e := by
-  simp [rangeList] at h; omega
-
-theorem cloneEvs_good (s : KSrc) (l : List Nat) : ∀ e ∈ cloneEvs s l, EvGood s e := by
-  intro e he; unfold cloneEvs at he; split at he
-  · simp at he; obtain ⟨_, _, rfl⟩ := he; trivial
-  · simp at he
-
-theorem dropEvs_good (s : KSrc) (l : List Nat) : ∀ e ∈ dropEvs s l, EvGood s e := by
-  intro e he; unfold dropEvs at he; split at he
-  · simp at he; obtain ⟨_, _, rfl⟩ := he; trivial
-  · simp at he
-
-/-- what the `ret chunk b a l vals` line of a chunk consumed from offset `off` on may claim -/
-def ChunkGood (s : KSrc) (b a off : Nat) (vals : List Nat) : Prop :=
-  b + a ≤ s.len ∧ off + vals.length ≤ a ∧ vals = (List.range vals.length).map fun k => s.valAt (b + off + k)
-
-/-- chunk pulls of a known-size kind, for every way of consuming the chunk (`all`, the first `k`, `nth(k)`): the
-values handed to the caller are the source elements at `begin + offset`, where `offset` is the number of elements
-the consumer discarded itself (`0` unless it used `nth`) -/
-theorem chunk_ret_good (s : KSrc) (cv n : Nat) (kk : Take) :
-    ChunkGood s (pullRange s.len cv n).1 ((pullRange s.len cv n).2 - (pullRange s.len cv n).1)
-      (kk.skipped ((pullRange s.len cv n).2 - (pullRange s.len cv n).1))
-      ((rangeList ((pullRange s.len cv n).1 + kk.skipped ((pullRange s.len cv n).2 - (pullRange s.len cv n).1))
-        ((pullRange s.len cv n).1 + takeCount kk ((pullRange s.len cv n).2 - (pullRange s.len cv n).1))).map s.valAt) := by
-  have h := pullRange_le s.len cv n
-  have htc := Take.count_le kk ((pullRange s.len cv n).2 - (pullRange s.len cv n).1)
-  have hsk := Take.skipped_le_count kk ((pullRange s.len cv n).2 - (pullRange s.len cv n).1)
-  refine ⟨by omega, by simp [rangeList, takeCount]; omega, ?_⟩
-  simp [rangeList, takeCount, Nat.add_comm, Nat.add_left_comm]
-
-/-- for consumers that only use `next()` the offset is 0: the line satisfies `EvGood` as it stands -/
-theorem chunk_ret_good_next (s : KSrc) (cv n : Nat) (kk : Take) (hk : ∀ k, kk ≠ .nth k) (hc : kk ≠ .cnt) :
-    EvGood s (.ret (.chunk (pullRange s.len cv n).1 ((pullRange s.len cv n).2 - (pullRange s.len cv n).1)
-      ((pullRange s.len cv n).2 - (pullRange s.len cv n).1 - takeCount kk ((pullRange s.len cv n).2 - (pullRange s.len cv n).1))
-      ((rangeList ((pullRange s.len cv n).1 + kk.skipped ((pullRange s.len cv n).2 - (pullRange s.len cv n).1))
-        ((pullRange s.len cv n).1 + takeCount kk ((pullRange s.len cv n).2 - (pullRange s.len cv n).1))).map s.valAt))) := by
-  have h := chunk_ret_good s cv n kk
-  have h0 : kk.skipped ((pullRange s.len cv n).2 - (pullRange s.len cv n).1) = 0 := by
-    cases kk <;> simp [Take.skipped] <;> first | exact absurd rfl (hk _) | exact absurd rfl hc
-  rw [h0] at h ⊢
-  simpa [ChunkGood, EvGood] using h
 
 /-- single pulls of a known-size kind: the reported index is the counter value read, and the value is the
 source element there (`fetch_one` of atomic_iter.rs with the `get` of each kind) -/
@@ -95,6 +20,49 @@ source element of the index it is given -/
 theorem known_size_visits_good (s : KSrc) (pa : Option Nat) (cv n : Nat) (v sm : Nat) :
     ∀ e ∈ (visitAll s true pa (rangeList (pullRange s.len cv n).1 (pullRange s.len cv n).2) v sm []).1, EvGood s e :=
   visitAll_good s true pa _ v sm [] (fun p hp => by have := mem_rangeList hp; have := pullRange_le s.len cv n; omega) (by simp)
+
+/-- **Every event of every step of every thread is faithful to the source** (known-size kinds, any configuration whatever —
+hence every reachable one, under every schedule): an item line carries the element at its index, a chunk line the
+elements at `begin + offset …` (`offset` ≠ 0 only for chunks consumed through `nth`), a closure invocation that is given
+an index gets the element of that index. Proof: `C02Base.lean`, one lemma per (pc, operation) of `KS.stepRest`. -/
+theorem known_size_every_event_good (s : KSrc) (t : Nat) (c : Cfg) : ∀ e ∈ (step s t c).2, EvGoodX s e := by
+  unfold step
+  split
+  · exact stepRest_events_good s t c _
+  · exact stepRest_events_good s t c c
+
+/-- the log of a schedule (the thread that steps, in order) from configuration `c` -/
+def traceOf (s : KSrc) : List Nat → Cfg → List Ev
+  | [], _ => []
+  | t :: ts, c => (step s t c).2 ++ traceOf s ts (step s t c).1
+
+/-- **Index fidelity of whole runs**: every line of the log of every schedule, of every program, on every source of
+a known-size kind, is faithful (`EvGoodX`). -/
+theorem known_size_every_logged_event_good (s : KSrc) (sched : List Nat) (c : Cfg) :
+    ∀ e ∈ traceOf s sched c, EvGoodX s e := by
+  induction sched generalizing c with
+  | nil => intro e he; simp [traceOf] at he
+  | cons t ts ih =>
+    intro e he
+    simp only [traceOf, List.mem_append] at he
+    rcases he with he | he
+    · exact known_size_every_event_good s t c e he
+    · exact ih _ e he
+
+/-- a chunk line of a consumer other than `nth` has offset 0: the chunk's values are the source elements from `begin` on -/
+theorem chunk_line_without_nth_starts_at_begin (s : KSrc) (b a off : Nat) (vals : List Nat)
+    (h : ChunkGood s b a off vals) (h0 : off = 0) :
+    vals = (List.range vals.length).map fun k => s.valAt (b + k) := by
+  subst h0; simpa [ChunkGood] using h.2.2
+
+/-- non-vacuity: a run in which two threads pull single items and a chunk from a 5-element slice logs item and chunk
+lines, so the theorem above speaks about something -/
+example :
+    let s : KSrc := { kind := .slice, vals := [10, 11, 12, 13, 14] }
+    let c := init s (fun t => if t = 0 then [⟨0, .next⟩] else if t = 1 then [⟨0, .chunk 3 .all⟩] else [])
+    traceOf s [0, 1, 0, 1] c ≠ [] ∧
+      (traceOf s [0, 1, 0, 1] c).any (fun e => match e with | .ret (.chunk _ _ _ _) => true | _ => false) = true := by
+  decide +kernel
 
 /-- **Wrapper over an arbitrary iterator**: every item `(idx, val)` ever returned to any thread, under every
 schedule, satisfies `wrapped[idx] = val` … -/
